@@ -15,10 +15,14 @@
   * `rc_pipeline`            the whole chain counts → scores commutes with `rc`
   * `mirror_score`           over an associative-commutative `add`,
                              `score (rc m) (rc s) (L-M-i) = score m s i`
+  * `rc_fromSequences`       the count matrix of the reverse-complemented sequences is the
+                             reverse complement of the count matrix (the chain commutes from the
+                             sequences on)
 -/
 import LMV.Model.Revcomp
 import LMV.Model.Pwm
 import LMV.Lemmas.FoldPerm
+import LMV.Props.C09
 
 namespace LMV
 namespace C10
@@ -287,6 +291,75 @@ theorem mirror_score [Arith α]
     exact hs _ (List.getElem_mem _)
   beta_reduce
   rw [e1, rc_get' T z m j _ hj (compl_lt T hx), compl_compl T hx]
+
+
+/-! ### the chain commutes from the sequences on -/
+
+theorem rcSeq_length (s : List Nat) : (rcSeq A s).length = s.length := by simp [rcSeq]
+
+theorem rcSeq_getElem? (s : List Nat) (i : Nat) (hi : i < s.length) :
+    (rcSeq A s)[i]? = (s[s.length - 1 - i]?).map A.complement := by
+  unfold rcSeq
+  rw [List.getElem?_reverse (by simpa using hi), List.getElem?_map]
+  simp
+
+/-- position `i` of the reverse-complemented sequences holds `a` exactly when position `L-1-i` of
+    the sequences holds the complement of `a` -/
+theorem colCount_rcSeq (seqs : List (List Nat)) (L : Nat) (hlen : ∀ s ∈ seqs, s.length = L)
+    (hsym : ∀ s ∈ seqs, ∀ x ∈ s, x < A.K) (i a : Nat) (hi : i < L) (ha : a < A.K) :
+    C09.colCount (seqs.map (rcSeq A)) i a = C09.colCount seqs (L - 1 - i) (A.complement a) := by
+  unfold C09.colCount
+  rw [List.filter_map, List.length_map]
+  congr 1
+  apply List.filter_congr
+  intro s hs
+  have hl : s.length = L := hlen s hs
+  have hk : L - 1 - i < s.length := by omega
+  simp only [Function.comp]
+  rw [rcSeq_getElem? T s i (by omega), hl, List.getElem?_eq_getElem hk]
+  have hx : s[L - 1 - i] < A.K := hsym s hs _ (List.getElem_mem _)
+  simp only [Option.map_some]
+  by_cases h : s[L - 1 - i] = A.complement a
+  · simp [h, compl_compl T ha]
+  · have : ¬ A.complement s[L - 1 - i] = a := by
+      intro e
+      apply h
+      rw [← e, compl_compl T hx]
+    simp [h, this]
+
+/-- **the count matrix of the reverse-complemented sequences is the reverse complement of the
+    count matrix** (same sequence count): with `rc_pipeline`, reverse complementation commutes with
+    the conversions all the way from the aligned sequences to the scores -/
+theorem rc_fromSequences (seqs : List (List Nat)) (hsym : ∀ s ∈ seqs, ∀ x ∈ s, x < A.K)
+    (hlen : ∀ s ∈ seqs, s.length = C09.firstLen seqs) :
+    ∃ c c', fromSequences (K := A.K) seqs = .ok c ∧
+      fromSequences (K := A.K) (seqs.map (rcSeq A)) = .ok c' ∧
+      c'.n = c.n ∧ c'.data = rc A 0 c.data := by
+  have hfl : C09.firstLen (seqs.map (rcSeq A)) = C09.firstLen seqs := by
+    cases seqs with
+    | nil => rfl
+    | cons s rest => simp [C09.firstLen, rcSeq_length T]
+  have hsym' : ∀ s ∈ seqs.map (rcSeq A), ∀ x ∈ s, x < A.K := by
+    intro s hs x hx
+    rcases List.mem_map.mp hs with ⟨t, ht, rfl⟩
+    unfold rcSeq at hx
+    rcases List.mem_map.mp (List.mem_reverse.mp hx) with ⟨y, hy, rfl⟩
+    exact compl_lt T (hsym t ht y hy)
+  have hlen' : ∀ s ∈ seqs.map (rcSeq A), s.length = C09.firstLen (seqs.map (rcSeq A)) := by
+    intro s hs
+    rcases List.mem_map.mp hs with ⟨t, ht, rfl⟩
+    rw [hfl, rcSeq_length T, hlen t ht]
+  have ⟨c, hc, hn, hrows, hget⟩ := C09.fromSequences_ok (K := A.K) seqs hsym hlen
+  have ⟨c', hc', hn', hrows', hget'⟩ := C09.fromSequences_ok (K := A.K) _ hsym' hlen'
+  refine ⟨c, c', hc, hc', by rw [hn', hn]; simp, ?_⟩
+  apply Mat.ext
+  · rw [rc_rows, hrows', hrows, hfl]
+  · intro i a hi ha
+    rw [hrows', hfl] at hi
+    rw [hget' i a (by rw [hfl]; exact hi) ha,
+      colCount_rcSeq T seqs (C09.firstLen seqs) hlen hsym i a hi ha,
+      rc_get' T 0 c.data i a (by rw [hrows]; exact hi) ha, hrows,
+      hget _ _ (by omega) (compl_lt T ha)]
 
 end main
 
